@@ -413,6 +413,20 @@ theorem absRun_sound (c : Bool) (fault : Fault)
 /-- resources of the protocols `ps` -/
 def IsProtoRes (ps : List Nat) (r : Res) : Prop := ∃ p ∈ ps, r = .conn p ∨ r = .task p
 
+theorem joinE_some_may {e1 e2 : Option Abs} {x : Abs} (h : joinE e1 e2 = some x) {r : Res}
+    (hr : r ∈ x.may) :
+    (∃ y, e1 = some y ∧ r ∈ y.may) ∨ (∃ y, e2 = some y ∧ r ∈ y.may) := by
+  cases e1 with
+  | none => exact Or.inr ⟨x, by simpa [joinE] using h, hr⟩
+  | some a =>
+    cases e2 with
+    | none => exact Or.inl ⟨x, by simpa [joinE] using h, hr⟩
+    | some b =>
+      simp only [joinE, Option.some.injEq] at h
+      subst h
+      simp only [Abs.join, List.mem_append] at hr
+      exact hr.elim (fun h => Or.inl ⟨a, rfl, h⟩) (fun h => Or.inr ⟨b, rfl, h⟩)
+
 theorem connectBody_abs (ps : List Nat) : ∀ a : Abs,
     (absRun false (connectBody ps) a).safe = true ∧
     (∀ x, (absRun false (connectBody ps) a).exc = some x →
@@ -422,28 +436,34 @@ theorem connectBody_abs (ps : List Nat) : ∀ a : Abs,
   | cons p ps ih =>
     intro a
     have h := ih { may := Res.task p :: Res.conn p :: a.may, must := a.must }
-    simp only [connectBody, absRun, joinE, Bool.true_and]
+    simp only [connectBody, absRun, Bool.true_and]
     refine ⟨h.1, ?_⟩
     intro x hx r hr
-    cases hrest : (absRun false (connectBody ps)
-        { may := Res.task p :: Res.conn p :: a.may, must := a.must }).exc with
-    | none =>
-      rw [hrest] at hx
-      cases hx
-      exact Or.inl hr
-    | some y =>
-      rw [hrest] at hx
-      cases hx
-      simp only [Abs.join, List.mem_append] at hr
-      rcases hr with hr | hr
-      · exact Or.inl hr
-      · rcases h.2 y hrest r hr with h' | ⟨q, hq, hq'⟩
-        · simp only [List.mem_cons] at h'
-          rcases h' with rfl | rfl | h'
-          · exact Or.inr ⟨p, List.mem_cons_self, Or.inr rfl⟩
-          · exact Or.inr ⟨p, List.mem_cons_self, Or.inl rfl⟩
-          · exact Or.inl h'
-        · exact Or.inr ⟨q, List.mem_cons_of_mem _ hq, hq'⟩
+    -- the protocol's own resources, or what was held before
+    have own : ∀ y : Abs, y.may = Res.task p :: Res.conn p :: a.may → r ∈ y.may →
+        r ∈ a.may ∨ IsProtoRes (p :: ps) r := by
+      intro y hy hry
+      rw [hy] at hry
+      simp only [List.mem_cons] at hry
+      rcases hry with rfl | rfl | h'
+      · exact Or.inr ⟨p, List.mem_cons_self, Or.inr rfl⟩
+      · exact Or.inr ⟨p, List.mem_cons_self, Or.inl rfl⟩
+      · exact Or.inl h'
+    rcases joinE_some_may hx hr with ⟨y, hy, hry⟩ | ⟨y, hy, hry⟩
+    · cases hy; exact Or.inl hry
+    · rcases joinE_some_may hy hry with ⟨z, hz, _⟩ | ⟨z, hz, hrz⟩
+      · cases hz
+      · rcases joinE_some_may hz hrz with ⟨w, hw, _⟩ | ⟨w, hw, hrw⟩
+        · cases hw
+        · rcases joinE_some_may hw hrw with ⟨u, hu, hru⟩ | ⟨u, hu, hru⟩
+          · cases hu; exact own _ rfl hru
+          · rcases joinE_some_may hu hru with ⟨v, hv, hrv⟩ | ⟨v, hv, hrv⟩
+            · cases hv; exact own _ rfl hrv
+            · rcases joinE_some_may hv hrv with ⟨t, ht, hrt⟩ | ⟨t, ht, hrt⟩
+              · cases ht; exact own _ rfl hrt
+              · rcases h.2 t ht r hrt with h' | ⟨q, hq, hq'⟩
+                · exact own _ rfl h'
+                · exact Or.inr ⟨q, List.mem_cons_of_mem _ hq, hq'⟩
 
 theorem closeAll_abs (ps : List Nat) : ∀ x : Abs,
     (absRun false (closeAll ps) x).exc = none ∧
